@@ -53,6 +53,10 @@ def check(ctx):
              "append_columns_with_borders) and at the final conversion (into_lines / into_string); the junction bookkeeping "
              "of the next row looks for a border line, a rule stored as text gets no junctions")
     ctx.guard("C05-L", rule_l)
+    ctx.rule("C05-M", "a cell with fewer lines than its row is filled with exactly `width` blanks: the filler of the row-assembly loop is "
+             "`spaces[0..width]` cut from a string of tot_width blanks, `\" \".repeat(width)` or `repeat(' ').take(width)` — not a "
+             "slice or prefix of some fixed-size buffer (a short filler shifts every bar to its right)")
+    ctx.guard("C05-M", rule_m)
     # bars stand at the same positions in every row only if every row walks the columns the same way: the column
     # cursors advance by the cell's colspan on every path (rule shared with C06-A)
     from . import C06
@@ -270,6 +274,44 @@ BORDER_TO_TEXT_OK = {
     "render::text_renderer::SubRenderer::<D>::into_string": "final conversion of the rendered lines",
     "render::text_renderer::SubRenderer::<D>::to_string": "debug/trace output",
 }
+
+
+def rule_m(ctx):
+    import re
+    F = ctx.facts
+    b = F.one(RTRAIT + "append_columns_with_borders")
+    old_depth = getattr(F, "upvar_depth", 2)
+    F.upvar_depth = 8
+    try:
+        fills = []
+        for bb, t in b.calls(lambda cd, t: callee_method(t) in ("unwrap_or_else", "unwrap_or", "map_or_else", "map_or")):
+            if not has_call(b.atoms(t["args"][0]), "::clone", "clone") and "column_padding" not in b.canon(t["args"][0], depth=10):
+                continue
+            pl = direct_place(b, t["args"][1]) if len(t["args"]) > 1 else None
+            sd = b.single_def(pl["l"]) if pl is not None and not pl["p"] else None
+            cb = F.bodies.get(sd[3]["rv"].get("def")) if sd and sd[0] == "stmt" and sd[3]["rv"].get("agg") == "closure" else None
+            if cb is None:
+                continue
+            for x in cb.reachable():
+                tt = cb.term(x)
+                if tt["k"] == "call" and tt["dest"]["l"] == 0 and not tt["dest"]["p"]:
+                    fills.append((cb, tt, cb.canon(tt["args"][0], depth=24) if tt["args"] else ""))
+    finally:
+        F.upvar_depth = old_depth
+    ctx.floor("C05-M", "blank fillers in the row-assembly loop", len(fills), 1)
+    for cb, tt, e in fills:
+        okc = False
+        m = re.search(r"index\(&up\{&?(.*)\}, ops::Range\{0_usize, (.*)\}\)$", e)
+        if m and "Iterator::collect(Iterator::map(ops::Range{0_usize," in m.group(1):
+            # the sliced string holds tot_width blanks (closure returning ' ' over 0..tot_width) and the cut is 0..width
+            okc = True
+        elif "<impl str>::repeat(" in e and '" "' in e:
+            okc = True
+        elif "Iterator::take(" in e and "iter::repeat(" in e:
+            okc = True
+        ctx.check(okc, "C05-M", "row-filler=width-blanks", tt["span"], cb.id,
+                  "the filler for a missing cell line is %s: unless it is exactly `width` blanks the row's bars no longer line up "
+                  "(a fixed-size buffer caps it for wide columns)" % e[:160])
 
 
 def rule_l(ctx):
